@@ -259,6 +259,15 @@ theorem inv_step (c : Cfg ρ) (hunbuf : c.handoffBuffered = false) (s s' : St ρ
       subst hs
       exact frame_ops c s h o _ rfl rfl
     · simp at hs
+  | staleTok o t =>
+    simp only [step] at hs
+    split at hs
+    · split at hs
+      · simp only [Option.some.injEq] at hs
+        subst hs
+        exact frame_ops c s h o _ rfl rfl
+      · simp at hs
+    · simp at hs
   | oTok o =>
     simp only [step] at hs
     split at hs
@@ -371,7 +380,7 @@ theorem cut_step (c : Cfg ρ) (s s' : St ρ) (a : Act ρ) (h : CutInv s) (hs : s
     refine ⟨?_, ?_⟩
     · simpa [recordsOf_append, hbuf] using hc
     · simp [cutsOf_append, cutsOf, h.cuts, hc]
-  | rfEmit | sTake | sAdd | sIsFull | sFlush | sSend | fire o | stale o | oTok o | oTFlush o | oDone o | oRecv o =>
+  | rfEmit | sTake | sAdd | sIsFull | sFlush | sSend | fire o | stale o | staleTok o t | oTok o | oTFlush o | oDone o | oRecv o =>
     simp only [step] at hs
     repeat' (split at hs)
     all_goals first
@@ -398,7 +407,7 @@ theorem step_fetched (c : Cfg ρ) (s s' : St ρ) (a : Act ρ) (hs : step c s a =
     simp only [step] at hs
     split at hs <;> try (simp at hs)
     subst hs; simp [fetchedOf, recordsOf_append]
-  | rfEmit | sTake | sAdd | sIsFull | sFlush | sSend | fire o | stale o | oTok o | oTFlush o | oDone o | oRecv o =>
+  | rfEmit | sTake | sAdd | sIsFull | sFlush | sSend | fire o | stale o | staleTok o t | oTok o | oTFlush o | oDone o | oRecv o =>
     simp only [step] at hs
     repeat' (split at hs)
     all_goals first
